@@ -8,7 +8,9 @@ import (
 
 	"github.com/crate-crypto/go-ipa/banderwagon"
 	"github.com/crate-crypto/go-ipa/common"
+	"github.com/crate-crypto/go-ipa/zzverif/vsched"
 	"verif.local/engine/core"
+	"verif.local/engine/explore"
 	"verif.local/engine/ref"
 )
 
@@ -230,6 +232,45 @@ func c06Units(ctx *core.Ctx) []core.Unit {
 			r.Note("n_accepted", nacc)
 		}})
 	}
+	us = append(us, core.Unit{Name: "two points decoded concurrently from readers that yield between deliveries (all interleavings)", Run: func(ctx *core.Ctx, r *core.Result) {
+		if !vsched.Instrumented {
+			r.Note("seam", "unavailable (fallback flavour)")
+			return
+		}
+		needRef()
+		a, b := ref.Compress(ref.SRS()[3]), ref.Compress(ref.SRS()[4])
+		bad := be32(bigP) // not canonical: must be rejected whatever the other stream does
+		for vi, pair := range [][2][]byte{{a[:], b[:]}, {a[:], bad}} {
+			pair := pair
+			body := func() string {
+				var wg vsched.WaitGroup
+				var tok vsched.Mutex
+				outs := make([]string, 2)
+				for k := 0; k < 2; k++ {
+					wg.Add(1)
+					vsched.Go1(func(k int) {
+						e, err := common.ReadPoint(&yieldReader{data: pair[k], chunk: 11, tok: &tok})
+						if err != nil {
+							outs[k] = "rejected"
+						} else {
+							eb := e.Bytes()
+							outs[k] = hx(eb[:])
+						}
+						wg.Done()
+					}, k)
+				}
+				wg.Wait()
+				return outs[0] + " | " + outs[1]
+			}
+			want := hx(pair[0]) + " | " + hx(pair[1])
+			if vi == 1 {
+				want = hx(pair[0]) + " | rejected"
+			}
+			st := core.Explore(r, core.SchedSpec{Name: fmt.Sprintf("common.ReadPoint x 2 through yielding readers (variant %d)", vi), API: "common.ReadPoint", Check: "c06.concurrent_streams", Body: body, Expect: want, Mode: "dpor", Opt: explore.Options{DataBudget: 0, MaxExecs: 100000, Deadline: schedDeadline(ctx)}})
+			r.Evals += int64(st.Execs)
+			r.Nontrivial += int64(st.Complete)
+		}
+	}})
 	us = append(us, core.Unit{Name: "boundaries around p and 2^256", Run: func(ctx *core.Ctx, r *core.Result) {
 		needRef()
 		c := &c06ctx{r: r}
